@@ -655,6 +655,38 @@ func main() {
 		}
 	}
 
+	// Two-call sequences, run alone before anything else uses pkg/pool's timers:
+	// call A (threshold 20 ms, no standby) lets the threshold timer expire
+	// without anybody receiving from it (the primary fails at once, so the
+	// first select is left through primFailed; the secondary runs for 80 ms)
+	// and puts it back into the pool; call B (threshold 60 s) then gets a
+	// pooled timer and must still see a primary that is within the threshold.
+	// Only B's observation is a case; on a correct pool it is an ordinary
+	// "p-delayed" observation.
+	for k := 0; k < 3; k++ {
+		for _, sb := range []bool{false, true} {
+			id := fmt.Sprintf("seq:pooled-timer:%d:%v", k, sb)
+			if !o.Want(id) {
+				continue
+			}
+			a := &spec{po: oNone, so: oAns, standby: false, fires: true, dl: "DFar", sched: "pooled-timer",
+				g: gates(cTrue, cTrue, cDelay, cTrue, cTrue, cNever), grace: 80 * time.Millisecond}
+			var wa sync.WaitGroup // several at once: sync.Pool keeps one private item per P
+			for i := 0; i < 8; i++ {
+				wa.Add(1)
+				go func() { defer wa.Done(); runCase(a) }()
+			}
+			wa.Wait()
+			time.Sleep(20 * time.Millisecond) // let the secondary goroutines run their deferred ReleaseTimer
+			b := &spec{po: oAns, so: oAns, standby: sb, fires: false, dl: "DFar", sched: "pooled-timer",
+				g: gates(cDelay, cTrue, cTrue, cTrue, cTrue, cNever), grace: 30 * time.Millisecond}
+			r := runCase(b)
+			r.desc["schedule"] = "pooled-timer"
+			r.desc["preceded_by"] = "a call whose 20 ms threshold timer expired unreceived"
+			w.Emit("pooled-timer/"+r.kind, hx.Case{ID: id, Coq: r.coq, Desc: r.desc})
+		}
+	}
+
 	// run (bounded parallelism; the output keeps the job order)
 	res := make([]result, len(jobs))
 	sem := make(chan struct{}, 8)
